@@ -724,10 +724,14 @@ func syncOvertake(m *meta, rng *rand.Rand, round int) {
 	v, ok := c.Get(7)
 	if useDelete {
 		if ok {
-			m.violate("C04", fmt.Sprintf("%s: SetAsync(7,2) returned before Delete(7) was called (Delete returned %v), yet after Sync the key holds %d", ctx, delRes, v), ctx)
+			for _, p := range []string{"C04", "C01"} {
+				m.violate(p, fmt.Sprintf("%s: SetAsync(7,2) returned before Delete(7) was called (Delete returned %v), yet after Sync the key holds %d (a deleted value is served)", ctx, delRes, v), ctx)
+			}
 		}
 	} else if !ok || v != 5 {
-		m.violate("C04", fmt.Sprintf("%s: SetAsync(7,2) returned before Set(7,5) was called, yet after Sync the key holds (%d,%v)", ctx, v, ok), ctx)
+		for _, p := range []string{"C04", "C01"} {
+			m.violate(p, fmt.Sprintf("%s: SetAsync(7,2) returned before Set(7,5) was called, yet after Sync the key holds (%d,%v) (an overwritten value is served)", ctx, v, ok), ctx)
+		}
 	}
 	c.Close()
 	m.count("sync_overtake_rounds")
